@@ -12,7 +12,7 @@ PROPS = ["C02_convergence.v", "C02_consistency.v", "C01_matrix.v", "C04_step_sys
 T_END = 0.5
 
 
-def ladder(kind, ratio, nxs, table=None, grid="quadratic", reverse_rows=False):
+def ladder(kind, ratio, nxs, table=None, grid="quadratic", reverse_rows=False, reassign=False):
     """errors of field (max over nodes, relative to u_i - u_f) and of both recoveries at T_END"""
     out = []
     for nx in nxs:
@@ -25,6 +25,8 @@ def ladder(kind, ratio, nxs, table=None, grid="quadratic", reverse_rows=False):
             c = dict(kind="single", table=table, pi=pi, pf=max(pi * ratio, float(table["pressure"][1])), nx=nx, times=t)
             if reverse_rows:
                 c["reverse_rows"] = True
+        if reassign:
+            c["reassign"] = True    # the object was built and run with another node count / pressures; its fields are then re-assigned
         im = rescorr.run_impl(c)
         if "field" not in im:
             out.append(dict(nx=nx, error=im.get("error")))
@@ -82,6 +84,21 @@ def run(ctx):
                     derr.append(abs(r["rfd"] / rfex - 1))
             judge(f"{kind} r={ratio}", ferr, inp, 2.5, "pseudopressure field vs Fourier series")
             judge(f"{kind} r={ratio}", rerr, inp, 2.5, "flux recovery vs Fourier series")
+            # the same ladder walked with objects whose node count and pressures were RE-ASSIGNED after an earlier run with other
+            # settings (a refinement loop that reuses its reservoir object): same problem, same answers
+            if ratio == ratios[1] and tb is not shifted:
+                lad2 = ladder(kind, ratio, nxs, tb, reassign=True)
+                ev += len(lad2)
+                inp2 = dict(**inp, object="built and run with nx+7 nodes and other pressures, then nx / pressure_fracface / pressure_initial re-assigned before simulate")
+                if any("field" not in r for r in lad2):
+                    bad("simulation fails after re-assigning the reservoir's fields", inp2, [r.get("error") for r in lad2])
+                else:
+                    for r, r2 in zip(lad, lad2):
+                        d = float(np.abs(r["field"] - r2["field"]).max() / (r["ui"] - r["uf"]))
+                        if d > 1e-9 or not dom.relclose(r["rf"], r2["rf"], 1e-9, 1e-12):
+                            bad("a reservoir whose fields were re-assigned solves a different problem than a freshly built one with the same settings", dict(**inp2, nx=r["nx"]),
+                                dict(field_max_rel_diff=d, flux_recovery_fresh=r["rf"], flux_recovery_reassigned=r2["rf"]))
+                            break
     # ---------------- pressure-dependent diffusivity: independent method-of-lines reference
     tables = [("shipped", rescorr.shipped_gas(stride=6))] + ([] if ctx.quick else [("ideal-gas", rescorr.synth_table("ideal", 80)), ("haynesville", rescorr.shipped_haynesville(stride=8))])
     # the same table with its rows listed by decreasing pressure must give the same answers (the library's lookups sort)
